@@ -95,10 +95,12 @@ static int run_child(char **batch, long from, long to, line_fn fn, bool confirm)
     return status;
 }
 
+#define MAX_CRASHES 20
 static void process_batch(char **batch, long n, line_fn fn)
 {
     long from = 0;
     while (from < n) {
+        if (S->crashes + S->hangs >= MAX_CRASHES) { S->extra[1] += n - from; return; }   /* skipped: enough evidence */
         int status = run_child(batch, from, n, fn, false);
         if (WIFEXITED(status) && WEXITSTATUS(status) == 0) break;
         long at = S->idx;
@@ -173,9 +175,9 @@ static void batch_summary(const char *summary, const char *who)
         if (f) {
             fprintf(f, "{\"behaviours\":%ld,\"calls\":%ld,\"expected_fields_compared\":%ld,\"reuse_probes\":%ld,"
                        "\"violations_own\":%ld,\"violations_other\":%ld,\"drift_ret\":%ld,\"drift_used\":%ld,"
-                       "\"abandoned_by_drift\":%ld,\"auto_finished\":%ld,\"crashes\":%ld,\"hangs\":%ld,\"flaky\":%ld}\n",
+                       "\"drift_obs\":%ld,\"abandoned_by_drift\":%ld,\"auto_finished\":%ld,\"crashes\":%ld,\"hangs\":%ld,\"flaky\":%ld}\n",
                     S->lines, S->steps, S->checked_fields, S->probes, S->viol_own, S->viol_other, S->drift_ret, S->drift_used,
-                    S->abandoned, S->auto_finished, S->crashes, S->hangs, S->flaky);
+                    S->extra[0], S->abandoned, S->auto_finished, S->crashes, S->hangs, S->flaky, S->extra[1]);
             fclose(f);
         }
     }
